@@ -33,6 +33,9 @@ Definition sample_calls (a b alpha : Qc) (K n : nat) (L : Qc) (z : bool) : list 
   | O => [Gamma a (1 / b)]
   | _ => [Beta (beta_a alpha) (beta_b n); Bern (pi_mix a b K n L); Gamma (shape1 a K z) (scale b L)]
   end.
+(* the numeric arguments of a call as plain rationals (for comparisons by computation) *)
+Definition call_q (c : call) : list Q :=
+  match c with Beta a b => [this a; this b] | Bern p => [this p] | Gamma s sc => [this s; this sc] end.
 (* the returned value when the gamma draw is g *)
 Definition sample_value (K : nat) (g : Qc) : Qc := match K with O => g | _ => floored g end.
 
@@ -65,4 +68,10 @@ Definition joint (a b : R) (K n : nat) (alpha eta : R) : R :=
   gamma_dens a b alpha * Rpower alpha (INR K - 1) * (alpha + INR n) * Rpower eta alpha * Rpower (1 - eta) (INR n - 1).
 (* the CRP likelihood of K clusters among n points: alpha^K Gamma(alpha) / Gamma(alpha + n) *)
 Definition crp_lik (K n : nat) (alpha : R) : R := Rpower alpha (INR K) * Gam alpha / Gam (alpha + INR n).
+(* the unnormalised posterior of alpha given K, n, times the constant Gamma(n) *)
+Definition posterior_unnorm (a b : R) (K n : nat) (alpha : R) : R :=
+  Gam (INR n) * (gamma_dens a b alpha * crp_lik K n alpha).
+(* what is assumed of the Gamma function *)
+Definition Gamma_like : Prop :=
+  (forall s, 0 < s -> Gam (s + 1) = s * Gam s) /\ (forall s, 0 < s -> 0 < Gam s).
 End Densities.
